@@ -69,6 +69,10 @@ def programs(tier):
         for seed in seeds:
             for sc in scripts:
                 P.append({"scenario": scen, "seed": seed, "steps": steps, "script": sc, "episodes": 2})
+    # episode schedules gone through more than twice by one environment: with the same seed, episode e+n repeats episode e
+    for scen, n in (("sched-gen", 2), ("sched_mini", 2)) + ((("sched_placeholders", 4),) if thorough else ()):
+        for seed in seeds[:2]:
+            P.append({"scenario": scen, "seed": seed, "steps": 5, "script": [[1, 3]], "episodes": 2 * n + 1, "period": n})
     # the scenario configures game.seed and reset() is called with that same value (and with another one)
     for seed in (0, 7):
         P.append({"scenario": "gen0+seed=%d" % seed, "seed": seed, "steps": 10, "script": [], "episodes": 2})
@@ -171,13 +175,12 @@ def run(tier, is_known):
         n_steps += sum(len(d) for _, _, d in runs)
         distinct_traj.add(HE.sha(repr(ref_d)))
         # (a) re-seeding reproduces the episode
-        half = len(ref_d) // 2
-        if ref_d[:half] != ref_d[half:]:
-            t = next(i for i in range(half) if ref_d[i] != ref_d[half + i])
+        bad = _reseed_diff(prog, ref_d)
+        if bad:
             viols.setdefault(("reseed_reproduces_episode", prog["scenario"]), violation(
                 "reseed_reproduces_episode", "scenario=%s" % prog["scenario"],
-                "program %r: the second episode after reset(seed=%d) differs from the first at step %d (hash seed %s, world %r)" % (
-                    prog, prog["seed"], t, ref_h, ref_w), adapter="c03", params={"program": prog}, history=[], event=None))
+                "program %r: episode %d after reset(seed=%d) differs from episode %d (same scenario, same seed) at step %d (hash seed %s, world %r)" % (
+                    prog, bad[1], prog["seed"], bad[0], bad[2], ref_h, ref_w), adapter="c03", params={"program": prog}, history=[], event=None))
         # (b) all worlds agree
         for h, w, d in runs[1:]:
             if d != ref_d:
@@ -204,13 +207,23 @@ def run(tier, is_known):
                 len(progs), len(worlds), len(hashseeds), n_exec, n_steps, time.time() - t0)}
 
 
+def _reseed_diff(prog, d):
+    """(episode e, episode e+period, step) of the first difference between an episode and its repetition, or None."""
+    E, per = prog.get("episodes", 2), prog.get("period", 1)
+    L = len(d) // E
+    for e in range(E - per):
+        a, b = d[e * L:(e + 1) * L], d[(e + per) * L:(e + per + 1) * L]
+        if a != b:
+            return e, e + per, next(i for i in range(L) if a[i] != b[i])
+    return None
+
+
 def replay(doc):
     prog = doc["params"]["program"]
     ws = doc["params"].get("worlds")
     if not ws:
         r = _collect(_spawn(0, [prog], [COVER_WORLDS[0]]))["results"][0]["digests"]
-        half = len(r) // 2
-        return [] if r[:half] == r[half:] else [violation(doc["clause"], doc["signature"], "still differs")]
+        return [] if not _reseed_diff(prog, r) else [violation(doc["clause"], doc["signature"], "still differs")]
     (h1, w1), (h2, w2) = ws
     d1 = _collect(_spawn(h1, [prog], [w1]))["results"][0]["digests"]
     d2 = _collect(_spawn(h2, [prog], [w2]))["results"][0]["digests"]
